@@ -181,3 +181,11 @@ func holdsAt(fl *core.Flow, body ast.Node, loc core.Loc, atom func(core.Fact) bo
 }
 
 func token0() token.Pos { return token.NoPos }
+
+func mustStruct(p *core.Prog, short, name string) *types.Struct {
+	_, st := p.StructOf(short, name)
+	if st == nil {
+		core.Failf("struct %s.%s not found", short, name)
+	}
+	return st
+}
